@@ -26,7 +26,7 @@ from .common import (
     ValueMapType,
     call_mapper,
 )
-from .node import Node, _index_of
+from .node import Node, _has_custom_data_id, _index_of
 from .tree import Tree
 
 
@@ -605,7 +605,7 @@ class TypedNode(Node):
                 "str": node_data,
             }
             # Add custom data_id if not calculated as hash by default.
-            if node._data_id != hash(node_data):
+            if _has_custom_data_id(node):
                 data["data_id"] = node._data_id
         else:
             data = Node._make_list_entry(node)
